@@ -14,7 +14,7 @@ META = dict(
     watchdog_s={"quick": 1500, "thorough": 5400},
     evaluations_counter="cases",
     min={"histories": 100, "faults_injected": 20, "faults_fired": 20, "registry_comparisons": 200, "purity_checks": 300,
-         "library_purity_checks": 200, "forward_exception_exits": 10, "nested_contexts": 10},
+         "library_purity_checks": 200, "forward_exception_exits": 10, "nested_contexts": 10, "twin_equivalence_checks": 100},
     anchors=["calibrate.py:Calibration.__enter__", "calibrate.py:Calibration.__exit__",
              "calibrate.py:Calibration.calibrate_input", "calibrate.py:Calibration.calibrate_output",
              "library/ops.py:disable_extensions", "nn/qmodule.py:QModuleMixin.forward"],
@@ -122,6 +122,38 @@ def pure_forward(ctx, model, x, sig, detail):
         ctx.violation(dict(sig, kind="repeated_inference_differs"), detail)
 
 
+def module_outputs(model, x):
+    """Fingerprint (class + bits) of what every submodule returns for input x."""
+    outs = {}
+    hs = [m.register_forward_hook(lambda mod, a, o, _n=n: outs.__setitem__(_n, lifecycle.out_fp(o))) for n, m in
+          model.named_modules() if n]
+    try:
+        with torch.no_grad():
+            outs["<model>"] = lifecycle.out_fp(model(x))
+    finally:
+        for h in hs:
+            h.remove()
+    return outs
+
+
+def twin_equivalence(ctx, oq, model, rebuild, x, sig, detail):
+    """A model that went through a (possibly aborted) calibration must behave exactly like a fresh model of the same
+    architecture loaded with its state_dict: nothing but the state_dict may carry over (no hidden per-module state)."""
+    try:
+        twin = rebuild()
+        twin.load_state_dict(model.state_dict())
+        a, b = module_outputs(model, x), module_outputs(twin, x)
+    except Exception as e:
+        ctx.count("twin_equivalence_not_evaluated")
+        ctx.see("twin_errors", f"{type(e).__name__}:{str(e)[:80]}")
+        return
+    ctx.count("twin_equivalence_checks")
+    d = fp.diff(a, b)
+    if d:
+        ctx.violation(dict(sig, kind="behaviour_differs_from_model_with_same_state_dict"),
+                      dict(detail, modules=d[:6], got=[a.get(k, "")[:40] for k in d[:3]], want=[b.get(k, "")[:40] for k in d[:3]]))
+
+
 def library_purity(ctx, oq, r, wd, sig):
     """quantize / freeze / quantize_weight / quantize_activation never modify the float tensors they read."""
     from optimum.quanto.library import ops as qops
@@ -178,10 +210,15 @@ def build_model(oq, r, wd, aq):
     wq = ["qint8", "qfloat8", "qint4"][r.integers(3)]
     if lifecycle.crash_hazard(kind, wd, wq, None):  # streamlining may switch activation quantization off
         wq = "qfloat8"
-    model, shape = lifecycle.build(kind, wd)
-    boom = Boom()
-    model = nn.Sequential(*list(model.children()), boom)
-    oq.quantize(model, weights=oq.qtypes[wq], activations=oq.qtypes[aq])
+    def make():
+        m, shp = lifecycle.build(kind, wd)
+        b = Boom()
+        m = nn.Sequential(*list(m.children()), b)
+        oq.quantize(m, weights=oq.qtypes[wq], activations=oq.qtypes[aq])
+        return m, shp, b
+
+    model, shape, boom = make()
+    model._qv_rebuild = lambda: make()[0]
     return model, shape, boom, kind
 
 
@@ -293,6 +330,9 @@ def run(ctx):
         for _ in range(3):  # batch sizes vary: state must not depend on what is inferred
             pure_forward(ctx, model, lifecycle.batch(r, (int(r.integers(1, 10)),) + tuple(shape[1:]), wd), sig0,
                          dict(desc=desc, model="calibrated_unfrozen"))
+        if not script["streamline"]:
+            twin_equivalence(ctx, oq, model, model._qv_rebuild, lifecycle.batch(r, shape, wd),
+                             dict(sig0, exit="exception" if outcome == "raised" else "normal", fault="none"), dict(desc=desc))
         # ---- fault enumeration: every (function, k) reached by the fault-free run
         for f, cnt in entered.items():
             for k in sorted(set([1, 2, cnt]) if ctx.tier == "quick" else set(range(1, min(cnt, 6) + 1)) | {cnt}):
@@ -318,6 +358,10 @@ def run(ctx):
                 ctx.nontrivial(script["shape"], f, k, str(wd), aq)
                 pure_forward(ctx, m2, lifecycle.batch(r, shape2, wd), dict(sig0, after_fault=True),
                              dict(desc=desc, fault=f, k=k))
+                if not script["streamline"]:
+                    twin_equivalence(ctx, oq, m2, m2._qv_rebuild, lifecycle.batch(r, shape2, wd),
+                                     dict(sig0, exit="exception" if outcome == "raised" else "normal",
+                                          fault=f.split(":")[-1]), dict(desc=desc, k=k))
         # ---- frozen / unfrozen inference purity and library purity
         oq.freeze(model)
         for _ in range(3):
